@@ -130,10 +130,9 @@ class SpreadStepSizesBlockwiseNonMPI(SpreadStepSizesBlockwise):
         spread_from_step, restart_at = self.get_step_from_which_to_spread(MS, S)
 
         # Compute the maximum allowed step size based on Tend.
-        dt_all = [0.0] + [me.dt for me in MS if not me.status.first]
-        dt_max = (
-            (Tend - time[restart_at] - dt_all[restart_at]) / size if self.params.overwrite_to_reach_Tend else np.inf
-        )
+        # The controller has already stored the start time of the next block for the first active step: after a
+        # restart this is the start of the restarted step, otherwise the end of the last step (as in the MPI version).
+        dt_max = (Tend - time[MS[0].status.slot]) / size if self.params.overwrite_to_reach_Tend else np.inf
 
         # record the step sizes to restart with from all the levels of the step
         new_steps = [None] * len(S.levels)
